@@ -48,8 +48,8 @@ func ToAddress(b []byte) (Address, error) {
 
 // StringToAddress returns Address with bytes set to the hex decoding
 // of s.
-// StringToAddress uses copy, which copies the minimum of
-// either AddressLen or the length of the hex decoded string.
+// StringToAddress returns an error if s is not the checksummed encoding
+// of exactly AddressLen bytes.
 func StringToAddress(s string) (Address, error) {
 	var a Address
 	if err := a.UnmarshalText([]byte(s)); err != nil {
@@ -73,6 +73,9 @@ func (a *Address) UnmarshalText(input []byte) error {
 	decoded, err := fromChecksum(string(input))
 	if err != nil {
 		return err
+	}
+	if len(decoded) != AddressLen {
+		return fmt.Errorf("%w: address is %d bytes, expected %d", ErrInvalidSize, len(decoded), AddressLen)
 	}
 
 	copy(a[:], decoded)
